@@ -11,6 +11,7 @@ import (
 	"sort"
 	"strings"
 	"sync"
+	"sync/atomic"
 
 	seccomp "github.com/elastic/go-seccomp-bpf"
 	"github.com/elastic/go-seccomp-bpf/arch"
@@ -339,6 +340,53 @@ func c12Audit(run *vlib.Run, phase string) {
 		run.Violation("alias:default", fmt.Sprintf("GetInfo(\"\") on an amd64 host: %v, %v", info, err), map[string]any{"check": "C12"})
 	}
 
+	// the same lookups from 16 goroutines at once, each with its own sequence of spellings: every single answer must be the
+	// one the spelling denotes (whatever the package remembers between lookups)
+	if phase != "concurrent" {
+		type q struct {
+			sp   string
+			want *arch.Info
+		}
+		var qs []q
+		for alias, canon := range c12Aliases {
+			w := byName[canon]
+			if len(w.SyscallNames) == 0 {
+				w = nil
+			}
+			qs = append(qs, q{alias, w}, q{strings.ToUpper(alias), w}, q{mixedCase(alias), w})
+		}
+		qs = append(qs, q{"", arch.X86_64}, q{"armv7b", nil}, q{"riscv64", nil})
+		sort.Slice(qs, func(i, j int) bool { return qs[i].sp < qs[j].sp })
+		var wg sync.WaitGroup
+		var bad atomic.Value
+		var n atomic.Int64
+		rounds := run.N(4000, 100000)
+		for g := 0; g < 16; g++ {
+			wg.Add(1)
+			go func(g int) {
+				defer wg.Done()
+				x := uint32(g)*2654435761 + 12345
+				for k := 0; k < rounds && bad.Load() == nil; k++ {
+					x = x*1664525 + 1013904223
+					c := qs[int(x>>8)%len(qs)]
+					info, err := arch.GetInfo(c.sp)
+					n.Add(1)
+					if (c.want == nil) != (err != nil || info == nil) || (c.want != nil && info != c.want) {
+						got := "an error"
+						if info != nil {
+							got = "the " + info.Name + " table"
+						}
+						bad.Store(fmt.Sprintf("GetInfo(%q) called next to 15 other goroutines that look up other names returns %s", c.sp, got))
+					}
+				}
+			}(g)
+		}
+		wg.Wait()
+		run.Count("concurrent_lookups_judged", n.Load())
+		if b := bad.Load(); b != nil {
+			run.Violation("lookup-under-concurrency-answers-for-another-name", b.(string), map[string]any{"check": "C12"})
+		}
+	}
 	run.Count("audits:"+phase, 1)
 	_, _ = evals, distinct
 }
